@@ -6,7 +6,7 @@ RULE = ("spec/Tunnel.tla keeps the tunnel's responder object explicit (header ma
         "checks Isolated (every response is a function of its own request and the store) on all sequences of 16 exchange kinds up to length 4, and "
         "shows the invariant violated for the one-responder-per-tunnel deviation (negative control). Every sequence of length 2 (quick) / 2..3 "
         "(thorough) over the 16 kinds (GET sized/chunked/1 MiB/404/no-store, POST 201, HEAD of sized/chunked/error resources, satisfiable and unsatisfiable Range) is run on the "
-        "real proxy three ways -- one shared tunnel, one tunnel per exchange, plain HTTP -- and TunnelTrace judges every exchange: status, tracked "
+        "real proxy four ways -- one shared tunnel, one tunnel per exchange, plain HTTP, and pipelined over one tunnel (every request written before the first answer is read; not with Expect: 100-continue) -- and TunnelTrace judges every exchange: status, tracked "
         "header names (none foreign, none missing), body identity, no unread bytes on the tunnel, and agreement of the ways on every tracked "
         "header value. distinct_nontrivial = sequences.")
 ASSUME = ["the origin ignores Range, so range answers are slices the proxy cuts from the stored body",
